@@ -328,7 +328,7 @@ def rule_occurrence(ck, F, X):
     bad = {}
     for (fn, site, ctx, fields, base) in sites:
         label = "any" if og.nf_str(fields.get("is_any", ("lit", False))) == "True" else (
-            "ref" if any("'ref'" in og.nf_str(c[1]) and c[2] for c in ctx if c[0] == "alt") else "named")
+            "ref" if og.ctx_says_present(ctx, "'ref'") else "named")
         if label == "ref" and any("starts_with" in og.nf_str(c[1]) and c[2] for c in ctx if c[0] == "alt"):
             label = "xml-ref"
         flags = {k: CE.expand(fields[k]) for k in ("is_vec", "is_optional", "is_attribute") if k in fields}
